@@ -125,14 +125,19 @@ InitState == [ovr |-> [m \in Machines |-> [n \in AllNames |-> None]],
 \* mism  : a program found in [binaries] / dirs / source tree / PATH has the wrong version - "stop": the
 \*         program counts as not found on the system and the subproject fallback is next ([T182]: "This needs
 \*         to use fallback"); "continue": later sources / names are still looked at
-\* final : an override of the wrong version, or a forced subproject that does not deliver, is final for
-\*         the "call" or only for that "name" (other names are still tried)
+\* final : an override of the wrong version, or a provider subproject that does not deliver the program
+\*         (the documents only describe providers that do), is final for the "call" or only for that
+\*         "name" (other names are still tried)
 \* optfb : does a lookup that is not required use the [provide] fallback of step 7?  [FP] lists the step
 \*         without condition; the same section of [WR] describes that optional dependency() lookups do not
 \* alt   : do the unused alternatives of a successful lookup count as "already found" for [F66]?
+\* sys   : NOT open - the order of the four sources of the system is the documented one in every reading;
+\*         the field exists so that trace validation can say which other order would explain a rejected
+\*         observation (diagnosis only)
+DocSysOrder == <<"bin", "dirs", "src", "path">>
 Readings == [nest : {"names", "sources"}, mism : {"stop", "continue"}, final : {"call", "name"},
-             optfb : BOOLEAN, alt : BOOLEAN]
-Canon == [nest |-> "sources", mism |-> "stop", final |-> "call", optfb |-> FALSE, alt |-> TRUE]
+             optfb : BOOLEAN, alt : BOOLEAN, sys : {DocSysOrder}]
+Canon == [nest |-> "sources", mism |-> "stop", final |-> "call", optfb |-> FALSE, alt |-> TRUE, sys |-> DocSysOrder]
 
 \* ---- overriding -----------------------------------------------------------------------------
 \* [F66] a name that has been found cannot be overridden any more; [F65] nor one that is overridden
@@ -168,13 +173,15 @@ DoSub(env, st, e, r) ==
 \* ---- find_program: operational formulation ----------------------------------------------
 \* [FP] "The search order is": 1 overrides, 2 [provide] if forced, 3 [binaries], 4 dirs:, 5 source tree
 \* relative to the current subdir, 6 PATH, 7 [provide] unless nofallback
-Stages == <<"ovr", "forced", "bin", "dirs", "src", "path", "fb">>
+Stages(r) == <<"ovr", "forced">> \o r.sys \o <<"fb">>
 NStages == 7
-Probes(names, nest) ==
+Probes(names, r) ==
     LET k == Len(names)
+        nest == r.nest
+        stg == Stages(r)
     IN IF nest = "names"
-       THEN [i \in 1..(k * NStages) |-> <<Stages[((i - 1) % NStages) + 1], names[((i - 1) \div NStages) + 1]>>]
-       ELSE [i \in 1..(k * NStages) |-> <<Stages[((i - 1) \div k) + 1], names[((i - 1) % k) + 1]>>]
+       THEN [i \in 1..(k * NStages) |-> <<stg[((i - 1) % NStages) + 1], names[((i - 1) \div NStages) + 1]>>]
+       ELSE [i \in 1..(k * NStages) |-> <<stg[((i - 1) \div k) + 1], names[((i - 1) % k) + 1]>>]
 
 \* "When true, Meson will abort if no program can be found.  If required is set to false, Meson continue ...
 \*  disabler: If true and the program couldn't be found, return a disabler object" [FP]
@@ -210,17 +217,17 @@ Walk(env, st, c, r, ps, i, dead, sysoff) ==
                     ELSE Final(st2)
              \* [WR] "find_program('myprog') will automatically fallback to use the subproject, assuming it
              \* uses meson.override_find_program('myprog')"
-             ViaSub(last) ==
+             ViaSub ==
                  LET st2 == Configure(env, st, m, n, r)
                  IN IF st2.sub[m][n] = "failed" /\ Required(c.req) THEN Out(ERR, st2)
                     ELSE IF st2.ovr[m][n] # None THEN FromOverride(st2)
-                    ELSE IF last THEN Go(st2, dead, sysoff) ELSE Final(st2)
+                    ELSE Final(st2)
          IN IF n \in dead THEN Go(st, dead, sysoff)
             ELSE CASE stage = "ovr" -> IF st.ovr[m][n] # None THEN FromOverride(st) ELSE Go(st, dead, sysoff)
-                   [] stage = "forced" -> IF Forced(env, n) THEN ViaSub(FALSE) ELSE Go(st, dead, sysoff)
+                   [] stage = "forced" -> IF Forced(env, n) THEN ViaSub ELSE Go(st, dead, sysoff)
                    [] stage = "fb" ->
                         IF MayFallBack(env, n) /\ ~Forced(env, n) /\ (Required(c.req) \/ r.optfb)
-                        THEN ViaSub(TRUE) ELSE Go(st, dead, sysoff)
+                        THEN ViaSub ELSE Go(st, dead, sysoff)
                    [] OTHER ->
                         LET v == SysV(c, stage, env, m, n)
                         IN IF sysoff \/ v = 0 THEN Go(st, dead, sysoff)
@@ -231,7 +238,7 @@ Walk(env, st, c, r, ps, i, dead, sysoff) ==
 \* [FE] "disabled: do not look for the dependency and always return 'not-found'"
 DoFind(env, st, c, r) ==
     IF c.req = "disabled" THEN Out(IF c.dis THEN Plain("disabler") ELSE Plain("notfound"), st)
-    ELSE Walk(env, st, c, r, Probes(c.names, r.nest), 1, {}, FALSE)
+    ELSE Walk(env, st, c, r, Probes(c.names, r), 1, {}, FALSE)
 
 Step(env, st, e, r) ==
     CASE e.op = "find" -> DoFind(env, st, e, r)
@@ -241,17 +248,20 @@ Step(env, st, e, r) ==
 \* readings that can make a difference for an event in a state (an optimisation only: the law
 \* RelevantReadingsSuffice of the model says that the image is the same)
 Relevant(env, st, e) ==
-    { r \in Readings :
-        /\ (e.op # "find" \/ Len(e.names) = 1 => r.nest = Canon.nest /\ r.final = Canon.final)
-        /\ (e.op # "find" \/ e.con = "any" => r.mism = Canon.mism)
-        /\ (e.op # "find" \/ Required(e.req) \/ e.req = "disabled" => r.optfb = Canon.optfb)
-        /\ ((\A m \in Machines : st.alt[m] \subseteq st.used[m]) => r.alt = Canon.alt) }
+    LET find == e.op = "find"
+        multi == find /\ Len(e.names) > 1
+    IN [nest : IF multi THEN {"names", "sources"} ELSE {Canon.nest},
+        final : IF multi THEN {"call", "name"} ELSE {Canon.final},
+        mism : IF find /\ e.con # "any" THEN {"stop", "continue"} ELSE {Canon.mism},
+        optfb : IF find /\ ~Required(e.req) /\ e.req # "disabled" THEN BOOLEAN ELSE {Canon.optfb},
+        alt : IF \A m \in Machines : st.alt[m] \subseteq st.used[m] THEN {Canon.alt} ELSE BOOLEAN,
+        sys : {DocSysOrder}]
 Outcomes(env, st, e) == { Step(env, st, e, r) : r \in Relevant(env, st, e) }
 AllOutcomes(env, st, e) == { Step(env, st, e, r) : r \in Readings }
 
 \* ---- find_program of one name: declarative formulation ----------------------------------------
 \* (proved equal to the walk for every call with one name by the model, law OperationalEqualsDeclarative)
-SysStages == <<"bin", "dirs", "src", "path">>
+SysStages == DocSysOrder
 DeclFind(env, st, c, r) ==
     LET n == c.names[1]
         m == Mach(env, c.native)
@@ -261,7 +271,7 @@ DeclFind(env, st, c, r) ==
                   IN IF st2.sub[m][n] = "failed" /\ Required(c.req) THEN Out(ERR, st2)
                      ELSE IF e # None /\ Sat(c.con, e.v) THEN found(e.kind, e.v, st2)
                      ELSE Out(Miss(c), st2)
-        present == SelectSeq(SysStages, LAMBDA s : SysV(c, s, env, m, n) # 0)
+        present == SelectSeq(r.sys, LAMBDA s : SysV(c, s, env, m, n) # 0)
         good == SelectSeq(present, LAMBDA s : Sat(c.con, SysV(c, s, env, m, n)))
         pick == IF r.mism = "stop"
                 THEN (IF present # <<>> /\ Sat(c.con, SysV(c, Head(present), env, m, n)) THEN <<Head(present)>> ELSE <<>>)
